@@ -36,7 +36,7 @@ CHECKS.update({
  "C15": ("queue", "E3", "5.3", "seeded schedule search with a concurrent sampler task; counters compared with the harness's own counts at quiescent points",
          "Seeded exploration: at harness-made quiescent points submitted/drained/queued must equal the number of Ok emits, wrapped-sink invocations and their difference; a sampler task reads queued() then submitted() at arbitrary interleavings (incl. the worker overtaking the producer's bookkeeping) and must see 0 <= queued <= submitted.", QNOTE),
  "C16": ("queue", "E3", "5.3", "seeded schedule search over Ok/Err patterns with and without a handler; merged log of wrapped-sink calls and handler calls",
-         "Seeded exploration: for every queued metric whose wrapped-sink call failed, exactly one handler call with that error (kind and message), on the same background task, before the next metric; none for accepted metrics (incl. Ok(0)); none at all without a handler.", QNOTE),
+         "Seeded exploration: for every queued metric whose wrapped-sink call failed, exactly one handler call with that error (kind and message), on the same background task, before the next metric; none for accepted metrics (incl. Ok(0)), none for a wrapped sink whose flush fails while its backend is down; none at all without a handler.", QNOTE),
 })
 
 SNOTE = "UDP and Unix datagram sockets are in-memory stubs (ledger of destination, payload, result; injectable result per send incl. EAGAIN, ECONNREFUSED, ENOBUFS, EINTR, ENOENT, EMSGSIZE, and a full buffer that blocks a blocking-mode sender); the real kernel socket is not exercised"
@@ -44,7 +44,7 @@ CHECKS.update({
  "C12": ("sockets", "E5", "5.4", "seeded schedule search over 2-4 emitter tasks sharing one Arc<StatsdClient> over a buffered sink; stream oracle on the merged datagram stream plus a flush barrier",
          "Seeded exploration of interleavings (scheduling points at lock, socket send, stats atomics, channel send - also while the lock is held - and, in a third of the runs, right after the effect of each of them and after unlock): every datagram is whole lines within capacity or one oversize metric alone, every Ok-acknowledged metric is on the wire exactly once by the final drop and already when a later flush returns Ok, each task's buffered metrics leave in program order. A quarter of the runs also refuse sends (a failed flush of one thread must not damage what another thread emits next); buffers from 0 to 131072 bytes, metric lengths aimed at exact fits of what the buffer nominally holds.", SNOTE),
  "C13": ("sockets", "E5", "5.5", "seeded simulation of the socket sinks over a stub socket ledger: per-emit datagram matching for unbuffered sinks, the E2 reference model for buffered ones",
-         "Seeded exploration over constructor address forms, blocking modes, metric strings (multi-byte UTF-8, blanks at the edges, embedded newlines, 0..65507 bytes and one over), capacities and send results: one datagram per emit with exactly the metric's bytes to the constructed destination and the socket's own result; buffered sinks follow the C05 model with a single newline and send the rest on flush and drop; the framing of every datagram is judged after refused sends too, with metric lengths aimed at exact fits of what is held behind a flush that may have failed.", SNOTE),
+         "Seeded exploration over constructor address forms, blocking modes, metric strings (multi-byte UTF-8, blanks at the edges, embedded newlines, 0..65507 bytes and one over), capacities and send results: one datagram per emit with exactly the metric's bytes to the constructed destination and the socket's own result; buffered sinks follow the C05 model with a single newline (metrics with blanks at the edges included: nothing is trimmed) and send the rest on flush and drop; the framing of every datagram is judged after refused sends too, with metric lengths aimed at exact fits of what is held behind a flush that may have failed.", SNOTE),
  "C14": ("sockets", "E5", "5.5", "seeded schedule search with 1-4 concurrent emitters and injected send failures; stats() compared with the socket ledger at quiescent points, also through a queuing wrapper",
          "Seeded exploration: at every quiescent point packets_sent+packets_dropped equals the send attempts in the ledger, bytes_sent/bytes_dropped equal the accepted/refused sizes, and for unbuffered sinks the Ok/Err emit results; yield points before every counter update expose a read-modify-write split; the same figures must be read through QueuingMetricSink::stats(); metrics beyond the UDP datagram limit on the unbuffered sink must be counted as dropped.", SNOTE),
 })
